@@ -19,6 +19,7 @@ import (
 	"io"
 	"io/ioutil"
 	"log"
+	"net"
 	"net/http"
 	"net/http/httptest"
 	"os"
@@ -64,6 +65,8 @@ type vScenario struct {
 	RollDuring  bool              `json:"rollduring"`  // herd: a metrics period ends while a wave is being served (C20)
 	Rollover    bool              `json:"rollover"`    // a metrics period ends before this scenario
 	NoRelayExt  map[string]bool   `json:"norelayext"`  // proxies whose poll omits AcceptedRelayPattern
+	CC          map[string]string `json:"cc"`          // remote address (no port) -> country code in the test GeoIP tables ("??" = not listed)
+	GeoReload   bool              `json:"georeload"`   // herd: the operator's SIGHUP reload of the GeoIP tables while a wave is being served (C20)
 }
 
 type vReq struct {
@@ -98,6 +101,7 @@ type vRig struct {
 	jstart   time.Time
 	out      *os.File
 	sidName  map[string]string // wire session id -> request name that introduced it
+	cc       map[string]string // address -> country code (scenario input)
 	diverged string
 	sc       int
 }
@@ -113,6 +117,14 @@ func vGid() int64 {
 	}
 	id, _ := strconv.ParseInt(string(m[1]), 10, 64)
 	return id
+}
+
+// vGeoip names one of the GeoIP tables shipped with the broker's own tests.
+func vGeoip(name string) string {
+	if d := os.Getenv("VERIF_GEOIP"); d != "" {
+		return d + "/" + name
+	}
+	return name
 }
 
 func vNewRig() *vRig {
@@ -138,6 +150,10 @@ func (r *vRig) newContext(bridges []string) {
 	}
 	// the operator's list replaces the built-in default list of NewBrokerContext
 	if err := r.ctx.InstallBridgeListProfile(strings.NewReader(list), "", ""); err != nil {
+		panic(err)
+	}
+	// the GeoIP tables shipped with the broker's own tests (the test runs in the package directory)
+	if err := r.ctx.metrics.LoadGeoipDatabases(vGeoip("test_geoip"), vGeoip("test_geoip6")); err != nil {
 		panic(err)
 	}
 	r.ipc = &IPC{r.ctx}
@@ -319,6 +335,10 @@ func (r *vRig) hook(point string, args ...interface{}) {
 		if q := r.reqs[ev["p"].(string)]; q != nil {
 			// what the proxy actually reported on the wire (the count as its order-preserving abstraction)
 			ev["addr"], ev["relayext"], ev["loadwire"], ev["natwire"] = q.addr, !q.norelay, q.load, q.nat
+			ev["cc"] = r.cc[q.addr]
+		}
+		if ev["cc"] == nil || ev["cc"] == "" {
+			ev["cc"] = "??"
 		}
 		r.mu.Unlock()
 	case "p.got":
@@ -677,7 +697,9 @@ func (r *vRig) reqFromStep(st []interface{}, sc *vScenario) *vReq {
 		if q.addr == "" {
 			q.addr = "192.0.2.77:4000"
 		}
-		if i := strings.LastIndex(q.addr, ":"); i >= 0 {
+		if h, _, err := net.SplitHostPort(q.addr); err == nil {
+			q.addr = h
+		} else if i := strings.LastIndex(q.addr, ":"); i >= 0 {
 			q.addr = q.addr[:i]
 		}
 		q.sid = vWireSid(q.name, sc.SimilarSids)
@@ -779,6 +801,12 @@ func (r *vRig) runSteps(sc *vScenario) {
 						// what logMetrics does when the measurement period ends
 						r.ctx.metrics.printMetrics()
 						r.ctx.metrics.zeroMetrics()
+					}()
+				}
+				if sc.GeoReload && n == 1 {
+					go func() {
+						// what the SIGHUP handler of main() does
+						r.ctx.metrics.LoadGeoipDatabases(vGeoip("test_geoip"), vGeoip("test_geoip6"))
 					}()
 				}
 			}
@@ -914,6 +942,23 @@ func (r *vRig) metricsSnapshot() map[string]interface{} {
 	r.ctx.metrics.printMetrics()
 	for _, line := range strings.Split(r.mlog.String(), "\n") {
 		f := strings.Fields(line)
+		if len(f) >= 1 && f[0] == "snowflake-ips" {
+			// per-country figures: CC=n,CC=n
+			ccs := []map[string]interface{}{}
+			if len(f) == 2 {
+				for _, kv := range strings.Split(f[1], ",") {
+					if i := strings.Index(kv, "="); i > 0 {
+						if n, err := strconv.Atoi(kv[i+1:]); err == nil {
+							ccs = append(ccs, map[string]interface{}{"c": kv[:i], "n": n})
+							continue
+						}
+					}
+					ccs = append(ccs, map[string]interface{}{"c": kv, "n": -1})
+				}
+			}
+			m["cc"] = ccs
+			continue
+		}
 		if len(f) == 2 {
 			if n, err := strconv.Atoi(f[1]); err == nil {
 				m["log:"+f[0]] = n
@@ -948,6 +993,7 @@ func (r *vRig) runScenario(t *testing.T, sc *vScenario) (events []vEvent, hung b
 	r.reqs = map[string]*vReq{}
 	r.waiting = map[string]chan struct{}{}
 	r.similar = sc.SimilarSids
+	r.cc = sc.CC
 	r.sidName = map[string]string{"unknownSid": "unknownSid"}
 	// every session id this scenario will use (an answer may name a proxy that has not polled yet)
 	for _, st := range sc.Steps {
